@@ -112,6 +112,25 @@ class SumsMixin:
             ctx.assume(cn - co == zreal(stn.at(idx)) - zreal(sto.at(idx)))
         return ok
 
+    def stacked_equal(self, a, b):
+        """extensionality of batched values: if a and b have the same length and equal elements at every index (PROVED,
+        scoped), record that their opaque injections are equal (so any function of the whole vector agrees)"""
+        ctx = self.ctx
+        na = z3.IntVal(a.n) if isinstance(a.n, int) else a.n
+        nb = z3.IntVal(b.n) if isinstance(b.n, int) else b.n
+        if not ctx.entails(na == nb):
+            return False
+
+        def body():
+            i = ctx.const("iext", z3.IntSort())
+            ctx.assume(z3.And(i >= 0, i < na))
+            e = self.veq(a.fn(i), b.fn(i))
+            return ctx.entails(e if not isinstance(e, bool) else z3.BoolVal(e))
+        ok = self.forall_paths(body)
+        if ok:
+            ctx.assume(self.to_u(a) == self.to_u(b))
+        return ok
+
     def sum_facts(self):
         """automatic pairwise extensionality between recorded sums of provably equal length"""
         ctx = self.ctx
